@@ -36,6 +36,7 @@
 #include <unifex/type_list.hpp>
 #include <unifex/type_traits.hpp>
 
+#include <algorithm>
 #include <exception>
 #include <functional>
 #include <memory>
@@ -206,6 +207,7 @@ struct _receiver<Predecessor, Receiver, Func, FuncPolicy>::type {
            sched = std::forward<Scheduler>(sched),
            begin_it,
            chunk_size,
+           distance,
            end_it,
            num_chunks](Values&... values) mutable {
             return unifex::let_value_with(
@@ -226,13 +228,17 @@ struct _receiver<Predecessor, Receiver, Func, FuncPolicy>::type {
                                 unifex::bulk_schedule(
                                     std::move(sched), num_chunks),
                                 [&](diff_t index) {
-                                  auto chunk_begin_it =
-                                      begin_it + (chunk_size * index);
-                                  auto chunk_end_it = chunk_begin_it;
+                                  // chunk_size is rounded up, so the
+                                  // trailing chunks may start at or beyond
+                                  // the end of the range: clamp both ends.
+                                  const diff_t chunk_begin =
+                                      std::min(chunk_size * index, distance);
+                                  auto chunk_begin_it = begin_it + chunk_begin;
+                                  auto chunk_end_it = end_it;
                                   if (index < (num_chunks - 1)) {
-                                    std::advance(chunk_end_it, chunk_size);
-                                  } else {
-                                    chunk_end_it = end_it;
+                                    chunk_end_it = begin_it +
+                                        std::min(
+                                            chunk_begin + chunk_size, distance);
                                   }
 
                                   for (auto it = chunk_begin_it;
